@@ -78,6 +78,12 @@ CHECKS = {
         note="Partial: injectivity of the default template over data IDs is false (C01-a, listed as known finding with the theorem sanitize_not_injective); serialisation (PyYAML, json, pickle, astropy) is a trusted carrier validated by the round-trip oracle; InMemoryDatastore hands out the caller's own object by design, so mutation-after-put is probed on the file datastore only. Trusted: Lean kernel; harness; POSIX file semantics.",
         design="DESIGN.md §5 C01",
     ),
+    "C05": dict(
+        technique="Lean 4 proof (documented meaning versus compiled SQL meaning of predicates on a row under three-valued logic; correctness of the strided-range compilation for every integer member and stride; compilation preserves meaning for every well-formed predicate) + correspondence of type-directed random expressions through the three Butler query methods and the three legacy Registry methods + Python oracle of the documented meaning",
+        text="inRange_correct (for every member, negative ones included, and every range with positive stride the compiled BETWEEN + truncating-remainder test equals membership in {a, a+s, ...} up to b), compile_correct and selects_exactly (for every well-formed predicate and every row the compiled value equals the documented value in all three truth values, hence exactly the true rows are returned), null_comparison_is_unknown, not_of_unknown_drops_row, null_test_is_two_valued, not_in_is_negation, and inRange_old_correct_partial / inRange_old_negative_witness (the repaired defect C05-a) are proved in Lean 4. The model is compared on every candidate row with Butler.query_data_ids / query_dimension_records / query_datasets for seeded expressions (comparisons in both orientations, + - * % and unary minus with negative intermediate values, IN / NOT IN over literals, strided ranges and bind lists, NULL tests, NOT / AND / OR) over a detector population with NULL metadata; the legacy Registry.query* methods must return the same rows whenever they accept the expression.",
+        note="Partial: the expression is sent to the model as a tree, the parse step is C14's subject; time literals / timespan overlap are covered by C11 and C14; POINT / region overlap and float arithmetic are not modelled; '/' is not generated. Legacy deviations C05-b (ranges compiled in lsst.daf.relation, outside the repository) and C05-c ('= NULL' never true) are known findings. Trusted: Lean kernel; harness; SQLite integer arithmetic and BINARY collation.",
+        design="DESIGN.md §5 C05",
+    ),
     "C07": dict(
         technique="Lean 4 proof (transaction programs as an inductive type; run of a failed block restores files, registry and undo stack exactly, for every program, nesting depth and fuel) + correspondence of generated programs on a real Butler + fault injection at every SQL / file boundary of the additive and removal operations with a snapshot-equality oracle",
         text="rollback_exact, effect_all (every program run from any state either commits files/registry extensions that are exactly its own puts or, when it fails, restores the state it started from, with caught inner failures at any depth), failed_block_restores and txn_state_restored (the datastore transaction stack is the same after any block, failed or not) are proved in Lean 4 for every program and every fuel; old_code_leaks / new_code_restores_witness keep the repaired defect C07-a as a kernel-checked regression witness. A second model (TxnCache) covers registry rows behind read-through caches and pruneDatasets inside blocks: Cache.coherent_all (the cached view never differs from the database, for every program), Cache.failed_block_registry_restored (rows, datasets and the cached view are as before a failed block), Cache.files_filter_all / failed_block_files (a block never adds artifacts and removes only what it prunes), Cache.failed_block_files_restored_partial (exact restoration for blocks without pruneDatasets) and the refutation witness Cache.prune_in_failed_block_loses_artifact (known finding C07-c); old_code_stale_cache is the regression witness of repaired defect C07-d. The models are compared with Butler.transaction() programs (nesting <= 3, caught / uncaught failures raised as Exception, BaseException, KeyboardInterrupt, SystemExit or by a refused re-put; inserts of dimension records / dataset types / runs read back through the cached interfaces; pruneDatasets inside blocks) on a real repository; put, put-in-block, ingest(copy, move), import_, transfer_from, pruneDatasets(purge) and removeRuns are run once per SQL / filesystem boundary with a fault injected there and the registry dump, records table and recursive root listing are compared before/after.",
